@@ -3,7 +3,7 @@ package ackhandler
 //vx:pkg github.com/refraction-networking/uquic/internal/ackhandler
 //vx:entry Harness_C07_appdata Harness_C07_initial
 //vx:param quick steps=3
-//vx:param thorough steps=6
+//vx:param thorough steps=3
 //vx:reach Harness_C07_appdata C07.ack C07.ack-2ranges C07.dup C07.immediate C07.delayed C07.alarm-fired C07.ignored
 //vx:reach Harness_C07_initial C07.init-ack C07.init-dup
 
